@@ -117,6 +117,89 @@ Definition iter (m : metadata) : list (bool * (hname * hvalue)) :=
 Definition iter_ascii (m : metadata) : hm := map snd (filter (fun te => negb (fst te)) (iter m)).
 Definition iter_bin (m : metadata) : hm := map snd (filter (fun te => fst te) (iter m)).
 
+(* Keys::next: http's Keys yields every distinct name once (order of first insertion), tagged
+   KeyRef::Ascii / KeyRef::Binary by its suffix (true = Binary) *)
+Fixpoint hm_names (m : hm) : list hname :=
+  match m with
+  | [] => []
+  | e :: r => fst e :: filter (fun k' => negb (bytes_eqb k' (fst e))) (hm_names r)
+  end.
+Definition keys (m : metadata) : list (bool * hname) :=
+  map (fun k => (negb (ascii_key k), k)) (hm_names m).
+
+(* Values::next / ValuesMut::next: every value of every entry once, tagged by the suffix of the
+   name it is stored under *)
+Definition values (m : metadata) : list (bool * hvalue) :=
+  map (fun e => (negb (ascii_key (fst e)), snd e)) m.
+Definition values_mut (m : metadata) : list (bool * hvalue) :=
+  map (fun e => (negb (ascii_key (fst e)), snd e)) m.
+(* IterMut::next *)
+Definition iter_mut (m : metadata) : list (bool * (hname * hvalue)) :=
+  map (fun e => (negb (ascii_key (fst e)), e)) m.
+
+(* writing through the mutable references: [f tag old] is the value the caller stores through
+   the reference it was handed with that tag *)
+Definition values_mut_apply (f : bool -> hvalue -> hvalue) (m : metadata) : metadata :=
+  map (fun e => (fst e, f (negb (ascii_key (fst e))) (snd e))) m.
+Definition iter_mut_apply (f : bool -> hvalue -> hvalue) (m : metadata) : metadata :=
+  map (fun e => (fst e, f (negb (ascii_key (fst e))) (snd e))) m.
+
+(* http::HeaderMap::get_mut: the first value of the name *)
+Fixpoint hm_set_first (m : hm) (k : hname) (v : hvalue) : hm :=
+  match m with
+  | [] => []
+  | e :: r => if key_is k e then (fst e, v) :: r else e :: hm_set_first r k v
+  end.
+Definition hm_set_all (m : hm) (k : hname) (v : hvalue) : hm :=
+  map (fun e => if key_is k e then (fst e, v) else e) m.
+(* get_mut / get_bin_mut: the same string-keyed lookup as get / get_bin *)
+Definition get_mut (m : metadata) (raw : list N) : option hvalue := str_lookup false raw None (hm_get m).
+Definition get_bin_mut (m : metadata) (raw : list N) : option hvalue := str_lookup true raw None (hm_get m).
+(* ... and the map after the caller stored [v] through the reference (unchanged on None) *)
+Definition get_mut_set (m : metadata) (raw : list N) (v : hvalue) : metadata :=
+  str_lookup false raw m (fun k => hm_set_first m k v).
+Definition get_bin_mut_set (m : metadata) (raw : list N) (v : hvalue) : metadata :=
+  str_lookup true raw m (fun k => hm_set_first m k v).
+
+(* ---- Entry API.  A handle carries the value encoding VE it is typed with ([e_bin]: true =
+   Binary) and the name it stands on. *)
+Inductive entry_t : Type := Occupied (e_bin : bool) (k : hname) | Vacant (e_bin : bool) (k : hname).
+Definition entry_bin_of (e : entry_t) : bool := match e with Occupied b _ | Vacant b _ => b end.
+Definition entry_key (e : entry_t) : hname := match e with Occupied _ k | Vacant _ k => k end.
+
+(* entry / entry_bin with a string key (impl AsMetadataKey<VE> for &str / String / &String):
+   suffix check on the string as written -> Err; HeaderName::from_bytes -> Err; headers.entry.
+   None = Err(InvalidMetadataKey); [bin] selects entry_bin *)
+Definition entry_str (bin : bool) (m : metadata) (raw : list N) : option entry_t :=
+  if negb (Bool.eqb (bin_suffix raw) bin) then None
+  else match hn_norm raw with
+       | Some k => Some (if hm_contains m k then Occupied bin k else Vacant bin k)
+       | None => None
+       end.
+(* entry / entry_bin with a validated MetadataKey<VE>: always Ok *)
+Definition entry_key_typed (bin : bool) (m : metadata) (k : hname) : entry_t :=
+  if hm_contains m k then Occupied bin k else Vacant bin k.
+
+(* VacantEntry<VE> *)
+Definition vacant_insert (m : metadata) (k : hname) (v : hvalue) : metadata := hm_append m k v.
+(* insert_entry returns OccupiedEntry<'a, VE>: the same encoding as the vacant handle *)
+Definition vacant_insert_entry (bin : bool) (m : metadata) (k : hname) (v : hvalue) : metadata * entry_t :=
+  (hm_append m k v, Occupied bin k).
+(* OccupiedEntry<VE> *)
+Definition occ_get (m : metadata) (k : hname) : option hvalue := hm_get m k.
+Definition occ_iter (m : metadata) (k : hname) : list hvalue := hm_get_all m k.
+Definition occ_insert (m : metadata) (k : hname) (v : hvalue) : metadata * option hvalue :=
+  (hm_insert m k v, hm_get m k).
+(* insert_mult forwards to http::header::OccupiedEntry::insert_mult, which (crate http 1.5.0,
+   HeaderMap::insert_occupied_mult) panics when the name has three or more values *)
+Definition occ_insert_mult (m : metadata) (k : hname) (v : hvalue) : res (metadata * list hvalue) :=
+  if (3 <=? List.length (hm_get_all m k))%nat then Panic
+  else Val (hm_insert m k v, hm_get_all m k).
+Definition occ_append (m : metadata) (k : hname) (v : hvalue) : metadata := hm_append m k v.
+Definition occ_remove (m : metadata) (k : hname) : metadata * option hvalue := (hm_remove m k, hm_get m k).
+Definition occ_remove_entry_mult (m : metadata) (k : hname) : metadata * (hname * list hvalue) :=
+  (hm_remove m k, (k, hm_get_all m k)).
+
 (* ------------------------------------------------------------------ emit paths *)
 Definition hdr_te : hname := Eval vm_compute in bytes_of_string "te".
 Definition hdr_content_type : hname := Eval vm_compute in bytes_of_string "content-type".
@@ -183,12 +266,100 @@ Definition bin_val_obs (v : hvalue) : tr := Nd [Bs v; oopt Bs (bin_decode v); ob
 Definition obs_probe (m : metadata) (raw : list N) : tr :=
   Nd [ oopt Bs (get m raw); oopt bin_val_obs (get_bin m raw);
        olist Bs (get_all m raw); olist bin_val_obs (get_all_bin m raw);
-       obool (contains_key m raw) ].
+       obool (contains_key m raw);
+       oopt Bs (get_mut m raw); oopt bin_val_obs (get_bin_mut m raw);
+       (* the String and &String impls answer like the &str impl *)
+       obool true ].
 Definition obs_iter (m : metadata) : tr := Nd [hm_canon (iter_ascii m); hm_canon (iter_bin m)].
-(* what the peer sees when it reads headers [h] with MetadataMap::from_headers *)
+(* order-free presentation of a multiset of byte strings *)
+Fixpoint ins_sorted (x : list N) (l : list (list N)) : list (list N) :=
+  match l with
+  | [] => [x]
+  | y :: r => if bytes_ltb y x then y :: ins_sorted x r else x :: l
+  end.
+Definition sort_bytes (l : list (list N)) : list (list N) := fold_right ins_sorted [] l.
+Definition obs_tagged (l : list (bool * list N)) : tr :=
+  Nd [ olist Bs (sort_bytes (map snd (filter (fun tv => negb (fst tv)) l)));
+       olist Bs (sort_bytes (map snd (filter (fun tv => fst tv) l))) ].
+Definition obs_iter_mut (m : metadata) : tr :=
+  Nd [ hm_canon (map snd (filter (fun te => negb (fst te)) (iter_mut m)));
+       hm_canon (map snd (filter (fun te => fst te) (iter_mut m))) ].
+(* what the peer sees when it reads headers [h] with MetadataMap::from_headers: the map, iter,
+   iter_mut, keys, values, values_mut and the string-keyed accessors *)
 Definition obs_read (h : hm) (probes : list (list N)) : tr :=
   let m := from_headers h in
-  Nd [hm_canon (into_headers m); obs_iter m; olist (obs_probe m) probes].
+  Nd [hm_canon (into_headers m); obs_iter m; obs_iter_mut m; obs_tagged (keys m);
+      obs_tagged (values m); obs_tagged (values_mut m); olist (obs_probe m) probes].
+
+(* how a MetadataValue<VE> / MetadataKey<VE> shows itself: its encoding, its text, to_bytes() *)
+Definition val_obs (bin : bool) (v : hvalue) : tr :=
+  Nd [obool bin; Bs v; oopt Bs (if bin then bin_decode v else ascii_decode v)].
+Definition key_obs (bin : bool) (k : hname) : tr := Nd [obool bin; Bs k].
+
+(* what the harness stores through a mutable reference it was handed with tag [bin] *)
+Definition BIN_MARK : hvalue := Eval vm_compute in enc false [1].
+Definition mut_val (bin : bool) (v : hvalue) : hvalue := if bin then BIN_MARK else (v ++ [33])%list.
+
+(* one use of the Entry API: (bin, (key as written, (action, value bytes))) *)
+Definition entry_value (bin : bool) (v : list N) : option hvalue :=
+  if bin then bin_try_from_bytes v else ascii_from_bytes v.
+Definition occ_obs (bin : bool) (m : metadata) (k : hname) : tr :=
+  Nd [oopt (val_obs bin) (occ_get m k); olist (val_obs bin) (occ_iter m k)].
+Definition entry_op_ok (m : metadata) (op : bool * (list N * (N * list N))) : metadata * tr :=
+  let '(bin, (raw, (act, vb))) := op in
+  match entry_str bin m raw, entry_value bin vb with
+  | None, _ => (m, Nd [Nn 0])
+  | Some _, None => (m, Nd [Nn 9])
+  | Some (Vacant b k), Some v =>
+      if act =? 0 then (* Entry::or_insert *)
+        (vacant_insert m k v, Nd [Nn 1; key_obs b k; val_obs b v])
+      else if act =? 1 then (* VacantEntry::insert *)
+        (vacant_insert m k v, Nd [Nn 1; key_obs b k; val_obs b v])
+      else if act =? 2 then (* insert_entry, then the handle it returns: key, get, iter *)
+        let '(m', e) := vacant_insert_entry b m k v in
+        (m', Nd [Nn 1; key_obs b k; key_obs (entry_bin_of e) (entry_key e); occ_obs (entry_bin_of e) m' (entry_key e)])
+      else if act =? 3 then (* insert_entry, then append a second value through the handle *)
+        let '(m', e) := vacant_insert_entry b m k v in
+        let m'' := occ_append m' (entry_key e) v in
+        (m'', Nd [Nn 1; key_obs b k; key_obs (entry_bin_of e) (entry_key e); occ_obs (entry_bin_of e) m'' (entry_key e)])
+      else (* into_key *)
+        (m, Nd [Nn 1; key_obs b k; key_obs b k])
+  | Some (Occupied b k), Some v =>
+      let head := [Nn 2; key_obs b k; occ_obs b m k] in
+      if act =? 0 then (* Entry::or_insert -> into_mut: the first value, map unchanged *)
+        (m, Nd [Nn 2; key_obs b k; oopt (val_obs b) (occ_get m k)])
+      else if act =? 1 then
+        let '(m', old) := occ_insert m k v in (m', Nd (head ++ [oopt (val_obs b) old])%list)
+      else if act =? 2 then
+        let m' := occ_append m k v in (m', Nd (head ++ [occ_obs b m' k])%list)
+      else if act =? 3 then
+        let '(m', old) := occ_remove m k in (m', Nd (head ++ [oopt (val_obs b) old])%list)
+      else if act =? 4 then
+        match occ_insert_mult m k v with
+        | Val (m', olds) => (m', Nd (head ++ [olist (val_obs b) olds])%list)
+        | Panic => (m, Nd [Nn 98])
+        end
+      else if act =? 5 then
+        let '(m', (k', olds)) := occ_remove_entry_mult m k in
+        (m', Nd (head ++ [key_obs b k'; olist (val_obs b) olds])%list)
+      else if act =? 6 then (* get_mut: store v through the reference *)
+        (hm_set_first m k v, Nd head)
+      else (* iter_mut: store v through every reference *)
+        (hm_set_all m k v, Nd head)
+  end.
+(* None = that operation panicked; the harness stops there *)
+Definition entry_op (m : metadata) (op : bool * (list N * (N * list N))) : res (metadata * tr) :=
+  let '(m', t) := entry_op_ok m op in
+  if tr_eqb t (Nd [Nn 98]) then Panic else Val (m', t).
+Fixpoint entry_ops (m : metadata) (ops : list (bool * (list N * (N * list N)))) : list tr * option metadata :=
+  match ops with
+  | [] => ([], Some m)
+  | op :: r =>
+      match entry_op m op with
+      | Panic => ([Nd [Nn 98]], None)
+      | Val (m', t) => let '(ts, fm) := entry_ops m' r in (t :: ts, fm)
+      end
+  end.
 
 Definition obs_client (send accept : option hvalue) (md : metadata) (probes : list (list N)) : tr :=
   obs_read (client_request_headers send accept md) probes.
@@ -226,3 +397,18 @@ Definition obs_ascii_value (v : list N) : tr :=
   Nd [oopt Bs (ascii_from_bytes v); obool (ascii_is_empty v)].
 Definition obs_build (ops : list (N * (list N * list N))) (probes : list (list N)) : tr :=
   obs_read (into_headers (apply_ops ops)) probes.
+
+(* maps built through the typed API, then used through the Entry API *)
+Definition obs_entry (ops : list (N * (list N * list N))) (eops : list (bool * (list N * (N * list N)))) : tr :=
+  let '(ts, fm) := entry_ops (apply_ops ops) eops in
+  Nd [Nd ts; match fm with Some m => Nd [hm_canon (into_headers m); obs_iter m] | None => Nd [] end].
+(* ... and written to through get_mut / get_bin_mut / values_mut / iter_mut *)
+Definition obs_mutate (ops : list (N * (list N * list N))) (raw va vb : list N) : tr :=
+  let m := apply_ops ops in
+  match ascii_from_bytes va, bin_try_from_bytes vb with
+  | Some a, Some b =>
+      Nd [ oopt Bs (get_mut m raw); oopt bin_val_obs (get_bin_mut m raw);
+           hm_canon (get_mut_set m raw a); hm_canon (get_bin_mut_set m raw b);
+           hm_canon (values_mut_apply mut_val m); hm_canon (iter_mut_apply mut_val m) ]
+  | _, _ => Nd [Nn 9]
+  end.
